@@ -850,7 +850,8 @@ func (s *State) evalIdentifier(node *ast.Identifier) object.Object {
 }
 
 func (s *State) evalIfExpression(ie *ast.IfExpression) object.Object {
-	condition := s.evalInternal(ie.Condition)
+	// The condition can be a reference to a boolean of an outer scope: `b = true; func f() { if b { ... } }`.
+	condition := object.Value(s.evalInternal(ie.Condition))
 	switch condition {
 	case object.TRUE:
 		if log.LogVerbose() {
@@ -1043,7 +1044,7 @@ func (s *State) evalForExpression(fe *ast.ForExpression) object.Object {
 	var lastEval object.Object
 	lastEval = object.NULL
 	for {
-		condition := s.evalInternal(fe.Condition)
+		condition := object.Value(s.evalInternal(fe.Condition)) // deref a boolean or count of an outer scope.
 		switch condition {
 		case object.TRUE:
 			if log.LogVerbose() {
